@@ -186,10 +186,40 @@ type runner struct {
 	lastErr  error
 }
 
+// safeCheck runs a check function. Most library calls are made under guard(), which
+// names the call; a panic that escapes from library code called elsewhere (building
+// an auxiliary object, say) is a violation all the same: no listed API may panic on
+// valid input. A panic without any library frame on its stack is a harness bug and
+// is passed on (the driver reports it as inconclusive, never as a violation).
+func safeCheck(check func(c *Case, s *Stats) error, c *Case, s *Stats) (err error) {
+	defer func() {
+		if r := recover(); r != nil {
+			buf := make([]byte, 32768)
+			n := runtime.Stack(buf, false)
+			where := ""
+			for _, l := range strings.Split(string(buf[:n]), "\n") {
+				if strings.Contains(l, "openacid/slim/") && !strings.Contains(l, "verifharness") ||
+					strings.Contains(l, "/trie/slimtrie") || strings.Contains(l, "/array/") && strings.Contains(l, ".go:") && !strings.Contains(l, "arrayprops") ||
+					strings.Contains(l, "/encode/") && strings.Contains(l, ".go:") || strings.Contains(l, "/index/index.go") {
+					where += " < " + strings.TrimSpace(l)
+					if len(where) > 600 {
+						break
+					}
+				}
+			}
+			if where == "" {
+				panic(r)
+			}
+			err = viol("panic", "library code panicked: %v @%s", r, where)
+		}
+	}()
+	return check(c, s)
+}
+
 // eval runs the property on one case, records a failure and reports it to rapid.
 func (r *runner) eval(t *rapid.T, c *Case) {
 	c.Prop = r.prop
-	err := r.check(c, r.stats)
+	err := safeCheck(r.check, c, r.stats)
 	if err != nil {
 		if _, ok := err.(*violation); !ok {
 			// not a statement about the property: a generator or harness problem.
@@ -260,7 +290,7 @@ func runReplay(t *testing.T, prop string, check func(c *Case, s *Stats) error) {
 		if err := json.Unmarshal(b, c); err != nil {
 			t.Fatalf("cannot parse replay %s: %v", f, err)
 		}
-		if err := check(c, st); err != nil {
+		if err := safeCheck(check, c, st); err != nil {
 			if _, ok := err.(*violation); !ok {
 				t.Fatalf("HARNESS ERROR (not a violation) on replay %s: %v", f, err)
 			}
